@@ -277,3 +277,5 @@ open Pandora.C13
 #print axioms docCone_bounds
 #print axioms cone_of_B
 #print axioms run_crop_eq_whole_of_B
+#print axioms afterTail_tailOf
+#print axioms extRunR_left_flag
